@@ -5,4 +5,5 @@ Extraction Language OCaml.
 Set Extraction KeepSingleton.
 Extraction "extracted/c16b/model.ml" Handles.mh_step Handles.cgi_get_file Handles.hstep Handles.get_cgnsio
   Handles.cgio_resolve Handles.adf_resolve Refcount.cgio_walk Refcount.io_init Refcount.mll_init
+  Refcount.zero_attr Refcount.attr_at
   BinInt.Z.of_nat.   (* pulls in Z / positive, which the shared ocaml/zutil.ml expects *)
